@@ -19,10 +19,10 @@ type Term struct {
 	id   int
 }
 
-// The term table only provides sharing (hash-consing); nothing depends on uniqueness for
-// soundness (pointer equality is used as a shortcut only). It is sharded for concurrent workers
-// and lossy: a shard that grows past its cap is dropped, the garbage collector reclaims terms no
-// live path refers to.
+// The term table provides sharing (hash-consing). Within one path execution structurally equal
+// terms are the same pointer (the path-literal cache of branch() relies on that), so the table is
+// never changed while a path runs: it is sharded for the concurrent workers and emptied only at a
+// barrier between paths (Explorer.pop), after which the garbage collector reclaims the old terms.
 type termKey struct {
 	op     string
 	name   string
@@ -34,7 +34,18 @@ type termKey struct {
 }
 
 const termShards = 256
-const termShardCap = 16384
+const termTableLimit = 3_000_000
+
+var termCount int64
+
+func clearTermTable() {
+	for i := range termTab {
+		termTab[i].mu.Lock()
+		termTab[i].m = nil
+		termTab[i].mu.Unlock()
+	}
+	atomic.StoreInt64(&termCount, 0)
+}
 
 type termShard struct {
 	mu sync.Mutex
@@ -72,9 +83,7 @@ func mkTerm(t Term) *Term {
 		sh.mu.Unlock()
 		return x
 	}
-	if len(sh.m) >= termShardCap {
-		sh.m = make(map[termKey]*Term, 1024)
-	}
+	atomic.AddInt64(&termCount, 1)
 	t.id = int(atomic.AddInt64(&termSeq, 1))
 	nt := new(Term)
 	*nt = t
@@ -90,12 +99,39 @@ func mask(w int) uint64 {
 	return (uint64(1) << uint(w)) - 1
 }
 
-func tConst(w int, v uint64) *Term { return mkTerm(Term{op: "const", w: w, cv: v & mask(w)}) }
+// Hot constants are pre-built so that they never touch the (locked) term table.
+var (
+	termTrue, termFalse *Term
+	const8              [256]*Term
+	const64             [1024]*Term
+)
+
+func init() {
+	termTrue = mkTerm(Term{op: "true"})
+	termFalse = mkTerm(Term{op: "false"})
+	for i := range const8 {
+		const8[i] = mkTerm(Term{op: "const", w: 8, cv: uint64(i)})
+	}
+	for i := range const64 {
+		const64[i] = mkTerm(Term{op: "const", w: 64, cv: uint64(i)})
+	}
+}
+
+func tConst(w int, v uint64) *Term {
+	v &= mask(w)
+	if w == 8 {
+		return const8[v]
+	}
+	if w == 64 && v < uint64(len(const64)) {
+		return const64[v]
+	}
+	return mkTerm(Term{op: "const", w: w, cv: v})
+}
 func tBool(b bool) *Term {
 	if b {
-		return mkTerm(Term{op: "true"})
+		return termTrue
 	}
-	return mkTerm(Term{op: "false"})
+	return termFalse
 }
 func tVar(name string, w int) *Term { return mkTerm(Term{op: "var", w: w, name: name}) }
 func (t *Term) isConst() bool       { return t.op == "const" || t.op == "true" || t.op == "false" }
